@@ -90,6 +90,20 @@ def judged_bg(pair, b):
     o = opaque_bg(b) if not (isinstance(b, (tuple, list)) and len(b) == 4) else None
     if o is not None:
         return o, o == pair.bg.rgb
+    # translucent background: composited over white. The library's value is used when it is within 1.5 units of the exact
+    # blend (C13 judges the blend itself); if it is further off, a CSS consumer sees the exact blend, so that is the background
+    try:
+        if isinstance(b, str):
+            bq = ocss.parse_input(b)
+        elif isinstance(b, (tuple, list)) and len(b) == 4 and all(isinstance(v, int) and not isinstance(v, bool) for v in b[:3]):
+            bq = (F(b[0]), F(b[1]), F(b[2]), F(b[3]))
+        else:
+            return pair.bg.rgb, True
+        exact = ocss.composite(bq, (255, 255, 255))
+        if not all(abs(F(pair.bg.rgb[k]) - exact[k]) <= F(3, 2) + F(1, 10**9) for k in range(3)):
+            return tuple(int(round(float(x))) for x in exact), True
+    except (ocss.CssReject, TypeError, ValueError):
+        pass
     return pair.bg.rgb, True
 
 
@@ -119,6 +133,12 @@ def spelled_pair_case(draw, pair_strategy, translucent_share=8, kinds=None):
     else:
         targ, tkind, _ = draw(gc.spell(text, kinds=kinds))
     barg, bkind, _ = draw(gc.spell(bg, allow_translucent=False))
+    if draw(st.integers(0, 14)) == 0:
+        # a translucent background (composited over white): solve for the colour whose blend over white is about `bg`
+        barg, bk = draw(gc.translucent_near(bg, (255, 255, 255)))
+        if isinstance(barg, str) and draw(st.booleans()):
+            barg = barg.replace(", 0.", ", .")  # minifier style: alpha without the leading zero
+        bkind = "translucent:" + bk
     case = {"text": targ, "bg": barg, "large": large, "very": very, "mode": mode,
             "tkind": tkind, "bkind": bkind, "meta": meta}
     w = draw(warm())
